@@ -13,11 +13,16 @@ def import_obj(path : str):
         output = parse_obj_data(objf.readlines())
     return output
 
-def parse_vertex( vstr ):
+def parse_index( istr, n ):
+    # indices start at 1 ; a negative index counts backwards from the last of the n elements read so far
+    i = int(istr)
+    return i-1 if i>0 else n+i
+
+def parse_vertex( vstr, nv=0, nt=0, nn=0 ):
     vals = vstr.split('/')
-    vid = int(vals[0])-1
-    tid = int(vals[1])-1 if len(vals)>1 and vals[1] else -1
-    nid = int(vals[2])-1 if len(vals) > 2 else -1
+    vid = parse_index(vals[0], nv)
+    tid = parse_index(vals[1], nt) if len(vals)>1 and vals[1] else -1
+    nid = parse_index(vals[2], nn) if len(vals) > 2 else -1
     return (vid,tid,nid) 
 
 def parse_obj_data(data):
@@ -35,9 +40,9 @@ def parse_obj_data(data):
         elif toks[0] == 'vt':
             uv_coords.append( Vec([float(toks[1]), float(toks[2])]) )
         elif toks[0] == 'f':
-            faces.append([ parse_vertex(vstr) for vstr in toks[1:] ])
+            faces.append([ parse_vertex(vstr, len(obj.vertices), len(uv_coords), len(normals)) for vstr in toks[1:] ])
         elif toks[0] == 'l':
-            line = [int(v)-1 for v in toks[1:]]
+            line = [parse_index(v, len(obj.vertices)) for v in toks[1:]]
             for v1,v2 in zip(line, line[1:]): # a line element can have more than two vertices
                 obj.edges.append(keyify(v1,v2))
 
